@@ -46,6 +46,7 @@ def cases(tier):
     for c in configs():
         for T in C.spec_templates(): cs.append(('roundtrip' if T in path_types(c) else 'nopath', T, c))
     cs.append(('untyped',))
+    for c in configs(): cs.append(('config', c))
     for ci, (ch, where) in enumerate(multi_chunks()):
         for k, x in enumerate(ch.items):
             if x[0] != 'lit': cs.append(('lemma', ci, k))
@@ -66,6 +67,7 @@ def assume_concrete(it, st, vals):
 def run(it, st, case):
     kind = case[0]
     if kind == 'lemma': return run_lemma(it, st, case[1], case[2])
+    if kind == 'config': return run_config(it, st, case[1])
     if kind == 'untyped':
         Sid = C.sid_class(it); x = PObj(Sid); s = SStr([st.fresh('u')]); x.attrs.update({'_string': s, '_type': '', '_fields': PDict()})
         st.inputs['string'] = s
@@ -113,6 +115,8 @@ def run(it, st, case):
         st.oblige(f'{name}:typed-sid-with-path-template-has-a-path', False, ('C05',)); st.observed = {'path': None}; return 'ok'
     st.oblige(f'{name}:typed-sid-with-path-template-has-a-path', True, ('C05',))
     st.oblige(f'{name}:path-is-a-function-of-type-fields-config', it.py_eq(it.to_str(p), it.to_str(p2)), ('C05', 'C13'))
+    pn = st.norm(S(it.to_str(p)))
+    st.oblige(f'{name}:path-lies-under-the-configured-root', bool(pn.atoms) and isinstance(pn.atoms[0], str) and pn.atoms[0].startswith(root_of(c).rstrip('/')), ('C05',), info={'root': root_of(c)})
     Sid = C.sid_class(it)
     try: y = it.call(Sid, [], {'path': p, 'config': c})
     except Raised as e:
@@ -122,13 +126,25 @@ def run(it, st, case):
     return 'ok'
 
 def root_of(c):
-    fm = snap()['resolvers'][snap()['pathconf'][c]['name']]['formats']
+    """the configured root of path configuration c: the literal prefix common to the path templates of c's own configuration module"""
+    fm = snap()['pathconf'][c].get('path_templates') or snap()['resolvers'][snap()['pathconf'][c]['name']]['formats']
     vals = list(fm.values()); pre = vals[0]
     for v in vals[1:]:
         i = 0
         while i < min(len(pre), len(v)) and pre[i] == v[i]: i += 1
         pre = pre[:i]
     return pre[:pre.index('{')] if '{' in pre else pre
+
+def run_config(it, st, c):
+    """the resolver that the library uses for configuration c holds the path templates of c's configuration module"""
+    st.inputs['config'] = c
+    pc = snap()['pathconf'][c]; r = snap()['resolvers'].get(pc['name'])
+    ok = r is not None and pc.get('path_templates') is not None and dict(r['patterns']) == dict(pc['path_templates']) and list(r['patterns']) == list(pc['path_templates'])
+    st.oblige('C05:pathconfig.PathConfig:resolver-of-a-configuration-holds-its-own-templates', ok, ('C05', 'C13'), info={'config': c, 'resolver_id': pc['name']})
+    others = [c2 for c2 in configs() if c2 != c and snap()['pathconf'][c2]['name'] == pc['name']]
+    st.oblige('C05:pathconfig.PathConfig:configurations-do-not-share-a-resolver', not others, ('C05', 'C13'), info={'config': c, 'shares_with': others})
+    st.observed = {'config': c}
+    return 'ok'
 
 # ------------------------------------------------------------------ lemmas: per-chunk decomposition uniqueness
 def multi_chunks():
@@ -179,7 +195,7 @@ def run_lemma(it, st, ci, k):
 # ------------------------------------------------------------------ native side
 def crosscheck(case, conc, exp):
     kind = case[0]
-    if kind == 'lemma': return {'status': 'agree', 'note': 'lemma: no program outcome'}
+    if kind in ('lemma', 'config'): return {'status': 'agree', 'note': 'no program outcome'}
     Sid = C.native()['Sid']
     try:
         if kind == 'untyped':
@@ -197,6 +213,14 @@ def crosscheck(case, conc, exp):
     return {'status': 'agree'}
 
 def replay(case, ob, inputs):
+    if case is not None and case[0] == 'config':
+        import subprocess, sys, json as _j
+        prog = ("import io,contextlib\nwith contextlib.redirect_stdout(io.StringIO()):\n    import spil\n    from spil import Sid\n"
+                "x = Sid('hamlet/a/char/ophelia/model/v001/w/ma'); import json\nprint(json.dumps([str(x.path(c)) for c in %r]))" % (configs(),))
+        out = subprocess.run([sys.executable, '-c', prog], capture_output=True, text=True, cwd='/repo').stdout.strip().split('\n')[-1]
+        try: ps = _j.loads(out); ok = all(p.startswith(root_of(c).rstrip('/')) for p, c in zip(ps, configs()))
+        except Exception: ps = out; ok = False
+        return {'confirmed': not ok, 'call': "Sid('hamlet/a/char/ophelia/model/v001/w/ma').path(c) for every configuration, fresh process", 'observed': repr(ps)[:400], 'expected': 'each path under its configured root ' + repr([root_of(c) for c in configs()])}
     if case is None or case[0] == 'lemma':
         import re as _re
         return {'confirmed': False, 'call': 'lemma ' + str(inputs.get('lemma')), 'observed': repr({k: inputs.get(k) for k in ('g', 'd', 'H')}), 'expected': 'no two decompositions of one segment'}
